@@ -138,6 +138,154 @@ theorem r_elext (y a b : Nat) (fy fa fb : ℝ → ℝ)
 
 end rules
 
+/-! ## Inversion of forward runs on tracked, unspent operands: values, back edges, flags -/
+
+section inv
+variable {α : Type} [Scalar α]
+
+/-- a tracked, unspent node of the heap -/
+def Live (H : Heap α) (n : Nat) : Prop := n < H.size ∧ H.tracked n = true ∧ H.dirty n = false
+
+theorem Live.ext {H H' : Heap α} {n : Nat} (l : Live H n) (e : Extends H H') : Live H' n := by
+  refine ⟨Nat.lt_of_lt_of_le l.1 e.1, ?_, ?_⟩
+  · have := l.2.1; simp only [Heap.tracked, e.ctx l.1] at this ⊢; exact this
+  · have := l.2.2; simp only [Heap.dirty, e.ctx l.1] at this ⊢; exact this
+
+/-- the context of a result with back edges -/
+def liveCtx (edges : List (Edge α)) : Ctx α := { tracked := true, edges := edges }
+
+theorem mkCtx_live1 (H : Heap α) (x : Nat) (edges : List (Edge α)) (l : Live H x) :
+    mkCtx H [x] edges = liveCtx edges := by
+  simp [mkCtx, liveCtx, l.2.1, l.2.2]
+
+theorem mkCtx_live2 (H : Heap α) (a b : Nat) (edges : List (Edge α)) (la : Live H a) (lb : Live H b) :
+    mkCtx H [a, b] edges = liveCtx edges := by
+  simp [mkCtx, liveCtx, la.2.1, la.2.2, lb.2.1, lb.2.2]
+
+theorem live_of_ctx {H : Heap α} {r : Nat} {edges : List (Edge α)} (hr : r < H.size) (hc : H.ctx r = liveCtx edges) :
+    Live H r := ⟨hr, by simp [Heap.tracked, hc, liveCtx], by simp [Heap.dirty, hc, liveCtx]⟩
+
+theorem op1_live {x : Nat} {v : Out (Tensor α)} {rule : Nat → Rule α} {H H' : Heap α} {r : Nat}
+    (h : hOp1 x v rule H = .ok (r, H')) (l : Live H x) :
+    r = H.size ∧ v = .ok (H'.val r) ∧ Extends H H' ∧ H'.ctx r = liveCtx [⟨x, rule r⟩] ∧ Live H' r := by
+  obtain ⟨e1, e2, e3⟩ := C08.op1_ctx x v rule H H' r h
+  obtain ⟨v1, _, _⟩ := hOp1_val h
+  have hc : H'.ctx r = liveCtx [⟨x, rule r⟩] := by rw [e2, mkCtx_live1 H x _ l, e1]
+  exact ⟨e1, v1, e3, hc, live_of_ctx (hOp1_size h) hc⟩
+
+theorem hPow_live {x : Nat} {a : α} {H H' : Heap α} {r : Nat} (h : hPow x a H = .ok (r, H')) (l : Live H x) :
+    H'.val r = vPow (H.val x) a ∧ Extends H H' ∧ H'.ctx r = liveCtx [⟨x, .powX x a⟩] ∧ Live H' r := by
+  unfold hPow at h
+  obtain ⟨H0, H1, h1, h2⟩ := bind_ok h
+  obtain ⟨e0, e1⟩ := getHeap_ok h1
+  rw [e0, e1] at h2
+  obtain ⟨_, v, e, c, l'⟩ := op1_live h2 l
+  exact ⟨by injection v with v; exact v.symm, e, c, l'⟩
+
+theorem hScale_live {x : Nat} {a : α} {H H' : Heap α} {r : Nat} (h : hScale x a H = .ok (r, H')) (l : Live H x) :
+    H'.val r = vScale (H.val x) a ∧ Extends H H' ∧ H'.ctx r = liveCtx [⟨x, .scaleX a⟩] ∧ Live H' r := by
+  unfold hScale at h
+  obtain ⟨H0, H1, h1, h2⟩ := bind_ok h
+  obtain ⟨e0, e1⟩ := getHeap_ok h1
+  rw [e0, e1] at h2
+  obtain ⟨_, v, e, c, l'⟩ := op1_live h2 l
+  exact ⟨by injection v with v; exact v.symm, e, c, l'⟩
+
+theorem hUnary_live {f : Unary} {x : Nat} {H H' : Heap α} {r : Nat} (h : hUnary f x H = .ok (r, H')) (l : Live H x) :
+    H'.val r = vUnary f (H.val x) ∧ Extends H H' ∧ H'.ctx r = liveCtx [⟨x, unaryRule f x r⟩] ∧ Live H' r := by
+  unfold hUnary at h
+  obtain ⟨H0, H1, h1, h2⟩ := bind_ok h
+  obtain ⟨e0, e1⟩ := getHeap_ok h1
+  rw [e0, e1] at h2
+  obtain ⟨_, v, e, c, l'⟩ := op1_live h2 l
+  exact ⟨by injection v with v; exact v.symm, e, c, l'⟩
+
+theorem hBroadcast_live {x : Nat} {s : List Int} {H H' : Heap α} {r : Nat} (h : hBroadcast x s H = .ok (r, H')) (l : Live H x) :
+    vBroadcast (H.val x) s = .ok (H'.val r) ∧ Extends H H' ∧ H'.ctx r = liveCtx [⟨x, .bcastX x r⟩] ∧ Live H' r := by
+  unfold hBroadcast at h
+  obtain ⟨H0, H1, h1, h2⟩ := bind_ok h
+  obtain ⟨e0, e1⟩ := getHeap_ok h1
+  rw [e0, e1] at h2
+  obtain ⟨_, v, e, c, l'⟩ := op1_live h2 l
+  exact ⟨v, e, c, l'⟩
+
+/-- ElMax / ElMin: two tie-aware back edges -/
+theorem hCmp_ext_live {c : Cmp} {a b : Nat} {H H' : Heap α} {r : Nat} (hc : c = .elmax ∨ c = .elmin)
+    (h : hCmp c a b H = .ok (r, H')) (la : Live H a) (lb : Live H b) :
+    vCmp c (H.val a) (H.val b) = .ok (H'.val r) ∧ Extends H H' ∧
+    H'.ctx r = liveCtx [⟨a, .elext r a b⟩, ⟨b, .elext r b a⟩] ∧ Live H' r := by
+  obtain ⟨v, _, e⟩ := hCmp_val h
+  unfold hCmp at h
+  obtain ⟨H0, H1, h1, h2⟩ := bind_ok h
+  obtain ⟨e0, e1⟩ := getHeap_ok h1
+  rw [e0, e1] at h2
+  obtain ⟨t, H2, h3, h4⟩ := bind_ok h2
+  obtain ⟨_, e2⟩ := liftOut_ok h3
+  rw [e2] at h4
+  have hk : alloc t (mkCtx H [a, b] [⟨a, .elext H.size a b⟩, ⟨b, .elext H.size b a⟩]) H = .ok (r, H') := by
+    rcases hc with rfl | rfl <;> exact h4
+  obtain ⟨p, _, q, _⟩ := alloc_ok hk
+  have hc' : H'.ctx r = liveCtx [⟨a, .elext r a b⟩, ⟨b, .elext r b a⟩] := by
+    rw [q, mkCtx_live2 H a b _ la lb, p]
+  have hlt : r < H'.size := by have := alloc_grows hk; omega
+  exact ⟨v, e, hc', live_of_ctx hlt hc'⟩
+
+/-- back edges of the four arithmetic operations (`gradtrack.Add` … `gradtrack.Div`) -/
+def arithEdges (o : Arith) (a' b' : Nat) : List (Edge α) :=
+  match o with
+  | .add => [⟨a', .idG⟩, ⟨b', .idG⟩]
+  | .sub => [⟨a', .idG⟩, ⟨b', .negG⟩]
+  | .mul => [⟨a', .mulG b'⟩, ⟨b', .mulG a'⟩]
+  | .div => [⟨a', .divA b'⟩, ⟨b', .divB a' b'⟩]
+
+/-- arithmetic on tracked, unspent operands: the two `Broadcast` nodes (towards the common target shape), the result,
+    their back edges -/
+theorem hArith_live {o : Arith} {a b : Nat} {H H' : Heap α} {r : Nat} (h : hArith o a b H = .ok (r, H'))
+    (la : Live H a) (lb : Live H b) :
+    ∃ a' b', Extends H H' ∧
+      vBroadcastN (H.val a) (targetBroadcastDims (H.val a).dims (H.val b).dims) = .ok (H'.val a') ∧
+      vBroadcastN (H.val b) (targetBroadcastDims (H.val a).dims (H.val b).dims) = .ok (H'.val b') ∧
+      vArith o (H.val a) (H.val b) = .ok (H'.val r) ∧
+      H'.ctx a' = liveCtx [⟨a, .bcastX a a'⟩] ∧ H'.ctx b' = liveCtx [⟨b, .bcastX b b'⟩] ∧
+      H'.ctx r = liveCtx (arithEdges o a' b') ∧ Live H' a' ∧ Live H' b' ∧ Live H' r := by
+  obtain ⟨hv, _, hlt, hext⟩ := hArith_val la.1 lb.1 h
+  unfold hArith at h
+  obtain ⟨p, H1, h1, h2⟩ := bind_ok h
+  obtain ⟨a', b'⟩ := p
+  unfold hBroadcastPair at h1
+  obtain ⟨H0, H0', g0, k1⟩ := bind_ok h1
+  obtain ⟨e0, e0'⟩ := getHeap_ok g0
+  rw [e0, e0'] at k1
+  obtain ⟨a1, Ha, g1, k2⟩ := bind_ok k1
+  obtain ⟨b1, Hb, g2, k3⟩ := bind_ok k2
+  have hp : (pure (a1, b1) : HM α (Nat × Nat)) Hb = .ok ((a1, b1), Hb) := rfl
+  rw [hp] at k3
+  injection k3 with k3
+  injection k3 with e1 e2
+  injection e1 with ea eb
+  subst ea eb e2
+  obtain ⟨va, xa, ca, lva⟩ := hBroadcast_live g1 la
+  obtain ⟨vb, xb, cb, lvb⟩ := hBroadcast_live g2 (lb.ext xa)
+  rw [xa.val lb.1] at vb
+  obtain ⟨H3, H3', g3, k4⟩ := bind_ok h2
+  obtain ⟨e3, e3'⟩ := getHeap_ok g3
+  rw [e3, e3'] at k4
+  obtain ⟨t, H4, g4, k5⟩ := bind_ok k4
+  obtain ⟨_, e4'⟩ := liftOut_ok g4
+  rw [e4'] at k5
+  obtain ⟨_, _, cr, xr⟩ := alloc_ok k5
+  have lva' : Live Hb a1 := lva.ext xb
+  have hcr : H'.ctx r = liveCtx (arithEdges o a1 b1) := by
+    rw [cr, mkCtx_live2 Hb a1 b1 _ lva' lvb]
+    cases o <;> rfl
+  refine ⟨a1, b1, hext, ?_, ?_, hv, ?_, ?_, hcr, lva'.ext xr, lvb.ext xr, live_of_ctx hlt hcr⟩
+  · rw [(xb.trans xr).val lva.1]; exact va
+  · rw [xr.val lvb.1]; exact vb
+  · rw [(xb.trans xr).ctx lva.1]; exact ca
+  · rw [xr.ctx lvb.1]; exact cb
+
+end inv
+
 /-! ## Sigmoid -/
 
 /-- the logistic function, literally the value `C14.sigmoid_value` proves for the forward pass -/
@@ -203,6 +351,128 @@ theorem sigmoid_local_vjp (bm : BMode) (H : Heap ℝ) (x o x2 o' x2' y : Nat) (G
     s3, s4, r_scale bm H G (H.val x) _ (-1), ?_⟩
   rw [gz_add G (H.val x) _ _ wX wG hd]
   exact congrArg Out.ok (gz_congr G (H.val x) _ _ sig_factor)
+
+/-! ## LeakyRelu -/
+
+/-- the derivative the `ElMin(0·x, x)` node delivers towards `x`: 1 below the tie band, 0 above, ½ inside -/
+noncomputable def minD (a : ℝ) : ℝ :=
+  (if Scalar.near (min 0 a) a then 1 else 0) - (1 / 2) * (if Scalar.near a 0 then 1 else 0)
+
+/-- the derivative LeakyRelu's graph delivers -/
+noncomputable def leakyD (m a : ℝ) : ℝ := C15.reluD a + m * minD a
+
+theorem minD_cases (a : ℝ) (thr : ℝ) (hthr : thr = (Scalar.eqThr : ℝ)) (hpos : 0 < thr) :
+    (thr < a → minD a = 0) ∧ (a < -thr → minD a = 1) ∧ (|a| ≤ thr → minD a = 1 / 2) := by
+  subst hthr
+  have hn1 : ∀ u v : ℝ, Scalar.near u v = decide (|u - v| ≤ Scalar.eqThr) := fun u v => rfl
+  refine ⟨?_, ?_, ?_⟩
+  · intro h
+    have h0 : 0 < a := lt_trans hpos h
+    have e1 : ¬ |min 0 a - a| ≤ (Scalar.eqThr : ℝ) := by
+      rw [min_eq_left h0.le, zero_sub, abs_neg, abs_of_pos h0]; linarith
+    have e2 : ¬ |a - 0| ≤ (Scalar.eqThr : ℝ) := by rw [sub_zero, abs_of_pos h0]; linarith
+    unfold minD
+    rw [hn1, hn1]
+    simp only [decide_eq_true_eq]
+    rw [if_neg e1, if_neg e2]; norm_num
+  · intro h
+    have h0 : a < 0 := by linarith
+    have e1 : |min 0 a - a| ≤ (Scalar.eqThr : ℝ) := by rw [min_eq_right h0.le]; simp [hpos.le]
+    have e3 : ¬ |a - 0| ≤ (Scalar.eqThr : ℝ) := by rw [sub_zero, abs_of_neg h0]; linarith
+    unfold minD
+    rw [hn1, hn1]
+    simp only [decide_eq_true_eq]
+    rw [if_pos e1, if_neg e3]; norm_num
+  · intro h
+    have e3 : |a - 0| ≤ (Scalar.eqThr : ℝ) := by rwa [sub_zero]
+    have e1 : |min 0 a - a| ≤ (Scalar.eqThr : ℝ) := by
+      rcases le_total 0 a with h0 | h0
+      · rw [min_eq_left h0, zero_sub, abs_neg]; exact h
+      · rw [min_eq_right h0]; simp [hpos.le]
+    unfold minD
+    rw [hn1, hn1]
+    simp only [decide_eq_true_eq]
+    rw [if_pos e1, if_pos e3]; norm_num
+
+/-- **LeakyRelu's delivered derivative**: `1` above the tie band of the library's `Eq` (`|x| ≤ 1e-240`), the slope `m`
+    below it, and `(1 + m)/2` inside the band (in particular at `x = 0`) — exactly what the rules compute -/
+theorem leakyD_cases (m a : ℝ) (thr : ℝ) (hthr : thr = (Scalar.eqThr : ℝ)) (hpos : 0 < thr) :
+    (thr < a → leakyD m a = 1) ∧ (a < -thr → leakyD m a = m) ∧ (|a| ≤ thr → leakyD m a = (1 + m) / 2) := by
+  obtain ⟨r1, r2, r3⟩ := C15.reluD_cases a thr hthr hpos
+  obtain ⟨m1, m2, m3⟩ := minD_cases a thr hthr hpos
+  unfold leakyD
+  refine ⟨fun h => ?_, fun h => ?_, fun h => ?_⟩
+  · rw [r1 h, m1 h]; ring
+  · rw [r2 h, m2 h]; ring
+  · rw [r3 h, m3 h]; ring
+
+/-- the tie band is not empty and is tiny: the threshold is `1e-240 > 0` -/
+theorem eqThr_pos : (0 : ℝ) < (Scalar.eqThr : ℝ) := by
+  simp only [Scalar.eqThr, Scalar.ofSci]
+  positivity
+
+/-- the LeakyRelu chain on a gradient `g_i · φ(x_i)` -/
+theorem leaky_chain (bm : BMode) (H : Heap ℝ) (x z s1 s2 s3 s1' s3' : Nat) (m : ℝ) (G : Tensor ℝ) (φ : ℝ → ℝ)
+    (hz : H.val z = vScale (H.val x) 0)
+    (hs1 : H.val s1 = (H.val x).map (fun a => max 0 a)) (hs2 : H.val s2 = (H.val x).map (fun a => min 0 a))
+    (hs1' : H.val s1' = H.val s1) (hs3' : H.val s3' = H.val s3)
+    (wX : (H.val x).WF) (wG : G.WF) (hd : G.dims = (H.val x).dims) :
+    ∃ g2 gz2 c2 gz1 c1 gzt cz c21,
+      evalRule bm H (gz G (H.val x) φ) .idG = .ok (gz G (H.val x) φ) ∧
+      evalRule bm H (gz G (H.val x) φ) (.bcastX s1 s1') = .ok (gz G (H.val x) φ) ∧
+      evalRule bm H (gz G (H.val x) φ) (.bcastX s3 s3') = .ok (gz G (H.val x) φ) ∧
+      evalRule bm H (gz G (H.val x) φ) (.scaleX m) = .ok g2 ∧
+      evalRule bm H g2 (.elext s2 z x) = .ok gz2 ∧ evalRule bm H g2 (.elext s2 x z) = .ok c2 ∧
+      evalRule bm H (gz G (H.val x) φ) (.elext s1 z x) = .ok gz1 ∧
+      evalRule bm H (gz G (H.val x) φ) (.elext s1 x z) = .ok c1 ∧
+      vArith .add gz2 gz1 = .ok gzt ∧ evalRule bm H gzt (.scaleX 0) = .ok cz ∧
+      vArith .add c2 c1 = .ok c21 ∧
+      vArith .add c21 cz = .ok (gz G (H.val x) (fun a => φ a * leakyD m a)) := by
+  have hX : H.val x = (H.val x).map id := by simp [Tensor.map]
+  have hZ : H.val z = (H.val x).map (fun a => 0 * a) := by rw [hz]; simp [vScale, Tensor.map]
+  have a1 := r_elext bm H G (H.val x) (fun a => m * φ a) wX wG hd s2 z x _ _ _ hs2 hZ hX
+  have a2 := r_elext bm H G (H.val x) (fun a => m * φ a) wX wG hd s2 x z _ _ _ hs2 hX hZ
+  have a3 := r_elext bm H G (H.val x) φ wX wG hd s1 z x _ _ _ hs1 hZ hX
+  have a4 := r_elext bm H G (H.val x) φ wX wG hd s1 x z _ _ _ hs1 hX hZ
+  refine ⟨_, _, _, _, _, _, _, _, rfl, r_bcast bm H _ s1 s1' (by rw [hs1']), r_bcast bm H _ s3 s3' (by rw [hs3']),
+    r_scale bm H G (H.val x) φ m, a1, a2, a3, a4, gz_add G (H.val x) _ _ wX wG hd, r_scale bm H G (H.val x) _ 0,
+    gz_add G (H.val x) _ _ wX wG hd, ?_⟩
+  rw [gz_add G (H.val x) _ _ wX wG hd]
+  refine congrArg Out.ok (gz_congr G (H.val x) _ _ ?_)
+  intro a
+  simp only [id, zero_mul, leakyD, C15.reluD, minD]
+  ring
+
+/-- **LeakyRelu, local backward pass.** The graph `actForward (.leaky m)` builds on `x` (see `leaky_graph`):
+    `z = 0·x`, `s1 = ElMax(z,x)`, `s2 = ElMin(z,x)`, `s3 = m·s2`, `r = Add(s1', s3')` with `s1'`, `s3'` the (identity)
+    `Broadcast`s of `s1`, `s3`. With `G` the gradient arriving at `r`, in the order the walk processes the edges:
+    `Add` (the gradient itself, both edges), the two `Broadcast` rules (equal shapes: identity, for both `BMode`s),
+    `Scale(m)`, the tie-aware rules of `ElMin` and `ElMax` towards `z` and towards `x`, the sum at `z` sent through
+    `Scale(0)`; the three contributions arriving at `x` add up to `G_i · leakyD m x_i` at every position:
+    `G_i` for `x_i` above the tie band, `m·G_i` below, `(1+m)/2 · G_i` inside (`leakyD_cases`). -/
+theorem leaky_local_vjp (bm : BMode) (H : Heap ℝ) (x z s1 s2 s3 s1' s3' : Nat) (m : ℝ) (G : Tensor ℝ)
+    (hz : H.val z = vScale (H.val x) 0)
+    (hs1 : H.val s1 = (H.val x).map (fun a => max 0 a)) (hs2 : H.val s2 = (H.val x).map (fun a => min 0 a))
+    (hs1' : H.val s1' = H.val s1) (hs3' : H.val s3' = H.val s3)
+    (wX : (H.val x).WF) (wG : G.WF) (hd : G.dims = (H.val x).dims) :
+    (∃ g2 gz2 c2 gz1 c1 gzt cz c21,
+      evalRule bm H G .idG = .ok G ∧
+      evalRule bm H G (.bcastX s1 s1') = .ok G ∧ evalRule bm H G (.bcastX s3 s3') = .ok G ∧
+      evalRule bm H G (.scaleX m) = .ok g2 ∧
+      evalRule bm H g2 (.elext s2 z x) = .ok gz2 ∧ evalRule bm H g2 (.elext s2 x z) = .ok c2 ∧
+      evalRule bm H G (.elext s1 z x) = .ok gz1 ∧ evalRule bm H G (.elext s1 x z) = .ok c1 ∧
+      vArith .add gz2 gz1 = .ok gzt ∧ evalRule bm H gzt (.scaleX 0) = .ok cz ∧
+      vArith .add c2 c1 = .ok c21 ∧
+      vArith .add c21 cz = .ok ⟨G.dims, List.zipWith (fun g a => g * leakyD m a) G.data (H.val x).data⟩) ∧
+    (∀ a : ℝ, ((Scalar.eqThr : ℝ) < a → leakyD m a = 1) ∧ (a < -(Scalar.eqThr : ℝ) → leakyD m a = m) ∧
+      (|a| ≤ (Scalar.eqThr : ℝ) → leakyD m a = (1 + m) / 2)) := by
+  refine ⟨?_, fun a => leakyD_cases m a _ rfl eqThr_pos⟩
+  have key := leaky_chain bm H x z s1 s2 s3 s1' s3' m G (fun _ => 1) hz hs1 hs2 hs1' hs3' wX wG hd
+  rw [gz_one G (H.val x) wX wG hd] at key
+  obtain ⟨g2, gz2, c2, gz1, c1, gzt, cz, c21, k1, k2, k3, k4, k5, k6, k7, k8, k9, k10, k11, k12⟩ := key
+  refine ⟨g2, gz2, c2, gz1, c1, gzt, cz, c21, k1, k2, k3, k4, k5, k6, k7, k8, k9, k10, k11, ?_⟩
+  rw [k12]
+  exact congrArg Out.ok (gz_congr G (H.val x) _ _ (fun a => one_mul _))
 
 end C15x
 end Qeep
